@@ -48,6 +48,10 @@ def table():
     def sw(name, f, npf, shapes, **kw): T.append(Op(name, f, npf, shapes=shapes, dom=(-1, 1), kind='shape', slicewise=True, **kw))
     for sl in (0, -1, slice(1, None), slice(None, None, -1), slice(None, None, 2), Ellipsis, numpy.newaxis, (Ellipsis, 0), (slice(0, 2), numpy.newaxis)):
         sw('getitem[%s]' % (sl,), lambda x, sl=sl: x[sl], lambda v, sl=sl: v[sl], ((3,), (3, 2)), view=True)
+    # advanced indexing (copies in NumPy): integer list, boolean mask, paired index arrays
+    sw('getitem[[0,2]]', lambda x: x[[0, 2]], lambda v: v[[0, 2]], ((3,), (3, 2)), view=True)
+    sw('getitem[mask]', lambda x: x[numpy.array([True, False, True])], lambda v: v[numpy.array([True, False, True])], ((3,), (3, 2)), view=True)
+    sw('getitem[ia,ja]', lambda x: x[numpy.array([0, 2]), numpy.array([1, 0])], lambda v: v[numpy.array([0, 2]), numpy.array([1, 0])], ((3, 2),), view=True)
     sw('getitem[1,::-1]', lambda x: x[1, ::-1], lambda v: v[1, ::-1], ((3, 2),), view=True)
     sw('getitem[-2:,1]', lambda x: x[-2:, 1], lambda v: v[-2:, 1], ((3, 2),), view=True)
     sw('transpose', lambda x: x.T, lambda v: v.T, ((3, 2), (2, 2, 3)), view=True)
